@@ -229,7 +229,24 @@ fn case_fn(case: &mut Case) -> CaseResult {
     if !abi::load_config(&cfg_text) {
         return Err(Failure::new("loader-rejects-config", "load_config returned false for a config parse_config accepts", detail));
     }
+    // bundlers process files concurrently: in half of the cases another file's task is started before this
+    // one and finished (emitted, freed) while this one is still waiting for its imports, and a third one is
+    // started after that; the module emitted for this file must not be affected
+    let interleave = case.ch.flip();
+    let other = if interleave {
+        Some(abi::initiate_task("/p/other-a.graphql", "query AlphaOnly { __typename }\n").map_err(|e| Failure::new("loader-initiate-failed", e, detail.clone()))?)
+    } else {
+        None
+    };
     let task = abi::initiate_task("/p/main.graphql", &main_text).map_err(|e| Failure::new("loader-initiate-failed", e, detail.clone()))?;
+    let mut third = None;
+    if let Some(o) = other {
+        let _ = abi::get_required_files(o);
+        let _ = abi::emit_js(o);
+        abi::free_task(o);
+        third = Some(abi::initiate_task("/p/other-c.graphql", "query GammaOnly { __typename }\n").map_err(|e| Failure::new("loader-initiate-failed", e, detail.clone()))?);
+        case.label("interleaved-tasks");
+    }
     let res = (|| -> Result<String, Failure> {
         let req = abi::get_required_files(task).map_err(|e| Failure::new("loader-required-failed", e, detail.clone()))?;
         if split {
@@ -241,6 +258,9 @@ fn case_fn(case: &mut Case) -> CaseResult {
         abi::emit_js(task).map_err(|e| Failure::new("loader-emit-failed", e, detail.clone()))
     })();
     abi::free_task(task);
+    if let Some(t) = third {
+        abi::free_task(t);
+    }
     let js = res?;
     let detail = json!({"config": cfg_text, "main.graphql": main_text, "lib.graphql": if split { json!(lib_text) } else { json!(null) }, "dts": dts, "js": js});
 
